@@ -232,13 +232,15 @@ def filter_oracle(case, in_grid, x, obs):
     extra = [[int(rng.integers(1, 4))], [int(rng.integers(1, 4)), int(rng.integers(1, 4))]]
     sc_shapes = [ts0] + ([extra[int(rng.integers(0, 2))]] if small and rng.random() < 0.5 else [])
     plans.append(('scalar', (), sc_shapes))
-    if ts0 or small:
-        k0 = ts0[0] if ts0 else int(rng.integers(1, 4))          # contracted index: the first tensor axis of the field
+    # a matrix transfer function is defined for vector and matrix fields (field_dot); a field of tensor order 0 or >= 3 is not sent through it
+    ts_m = ts0 if len(ts0) in (1, 2) else []
+    if ts_m or small:
+        k0 = ts_m[0] if ts_m else int(rng.integers(1, 4))          # contracted index: the first tensor axis of the field
         m = k0 if rng.random() < 0.6 else int(rng.integers(1, 4))
-        shapes = [ts0] if ts0 else []
+        shapes = [ts_m] if ts_m else []
         if small:
             more = [[k0], [k0, int(rng.integers(1, 4))]]
-            shapes += [sh for sh in more if sh != ts0][:2 if rng.random() < 0.5 else 1] if ts0 else more[int(rng.integers(0, 2)):][:2]
+            shapes += [sh for sh in more if sh != ts_m][:2 if rng.random() < 0.5 else 1] if ts_m else more[int(rng.integers(0, 2)):][:2]
         if not any(len(sh) == 2 for sh in shapes) and small:
             shapes.append([k0, int(rng.integers(1, 4))])
         plans.append(('matrix', (m, k0), shapes))
